@@ -87,14 +87,46 @@ class World:
         self._fresh = itertools.count()
 
     def ground_len_facts(self, formulas, depth=3):
-        """Quantifier-free instances of  len_l(x) >= 0  for every len_l term in the formulas
-        (and for `depth` tails of its argument)."""
+        """Quantifier-free instances of list lemmas (each is a Lean theorem over List, see
+        lean/FuncAdlLemmas.lean / Mathlib): len_l(x) >= 0;  append_assoc;  append_nil;
+        length_append — instantiated at the terms occurring in the formulas."""
         from .specs import len_args
         S = self.S
         seen = set()
         out = []
         for f in formulas:
             for a in len_args(self, f):
+                if isinstance(a, tuple) and a[0] == "map":
+                    t = a[1]
+                    if t.get_id() in seen:
+                        continue
+                    seen.add(t.get_id())
+                    d_ = self.defs.get(t.decl().name())
+                    filt = d_ is not None and "If(" in str(d_[2].arg(2))[:4] if False else False
+                    # length_map (Lean: List.length_map); comprehensions with a filter only <=
+                    if t.decl().name().startswith("comp!") and self._comp_has_filter(t.decl().name()):
+                        out.append(S.len_l(t) <= S.len_l(t.arg(0)))
+                    else:
+                        out.append(S.len_l(t) == S.len_l(t.arg(0)))
+                    out.append(S.len_l(t.arg(0)) >= 0)
+                    out.append(S.is_nil(t) == S.is_nil(t.arg(0))) if not (
+                        t.decl().name().startswith("comp!") and
+                        self._comp_has_filter(t.decl().name())) else None
+                    continue
+                if isinstance(a, tuple):
+                    t = a[1]
+                    if t.get_id() in seen:
+                        continue
+                    seen.add(t.get_id())
+                    x, y = t.arg(0), t.arg(1)
+                    out.append(S.len_l(t) == S.len_l(x) + S.len_l(y))
+                    out.append(S.len_l(x) >= 0)
+                    out.append(S.len_l(y) >= 0)
+                    if z3.is_app(x) and x.decl().name() == "concat":
+                        out.append(t == S.concat(x.arg(0), S.concat(x.arg(1), y)))
+                    if z3.is_app(y) and y.decl().name() == "nil":
+                        out.append(t == x)
+                    continue
                 if a.get_id() in seen:
                     continue
                 seen.add(a.get_id())
@@ -102,6 +134,14 @@ class World:
                     out.append(S.len_l(a) >= 0)
                     a = S.tail(a)
         return out
+
+    def _comp_has_filter(self, name):
+        d = self.defs.get(name)
+        if d is None:
+            return False
+        body = d[2]          # If(is_nil(l), nil, step)
+        step = body.arg(2)
+        return z3.is_app(step) and step.decl().kind() == z3.Z3_OP_ITE
 
     def fresh_name(self, base):
         return f"{base}!{next(self._fresh)}"
@@ -506,7 +546,14 @@ class Exec:
                     vals.append(self.to_py(a))
             else:
                 vals.append(S.nil if q == "*" else self.P.PNone)
-        return Z(S.mk(cls, vals), fresh="shallow", origin=f"ast.{cls}(...)", known_cls=cls)
+        lists_fresh = True
+        for fname, fty, q in S.fields[cls]:
+            if q == "*" and fname in given:
+                a = given[fname]
+                if isinstance(a, Z) and a.fresh == "no":
+                    lists_fresh = False
+        return Z(S.mk(cls, vals), fresh="shallow" if lists_fresh else "node",
+                 origin=f"ast.{cls}(...)", known_cls=cls)
 
     def isinstance_(self, v, c):
         S, P = self.S, self.P
@@ -654,7 +701,8 @@ class Exec:
                     parts.append(x.t)
                 else:
                     f = self.w.ufun("str_of", self.S.Py, z3.StringSort())
-                    parts.append(f(self.to_py(x)))
+                    tx = self.to_py(x)
+                    parts.append(z3.If(self.P.is_PStr(tx), self.P.s(tx), f(tx)))
         r = parts[0] if parts else z3.StringVal("")
         for p in parts[1:]:
             r = z3.Concat(r, p)
@@ -680,6 +728,9 @@ class Exec:
         if isinstance(v, Obj):
             if name in v.attrs:
                 return v.attrs[name]
+            cc = self.w.classes.get(v.cls, {})
+            if name in cc.get("property_of", {}):
+                return v.attrs[cc["property_of"][name]]
             return Bound(v, name)
         if isinstance(v, Z):
             s = v.t.sort()
@@ -948,6 +999,11 @@ class Exec:
                 and args and isinstance(args[0], (ast.GeneratorExp, ast.ListComp)):
             return self.w.builtins[f.name](self, [args[0]] + [self.ev(a, env) for a in args[1:]],
                                            {}, e, env)
+        if isinstance(e.func, ast.Attribute) and e.func.attr in (
+                "append", "remove", "pop", "extend", "insert", "clear") and not e.keywords:
+            r = self.list_mutation(e, env)
+            if r is not NotImplemented:
+                return r
         argv = [self.ev(a, env) for a in args]
         kw = {}
         for k in e.keywords:
@@ -956,6 +1012,72 @@ class Exec:
             else:
                 kw[k.arg] = self.ev(k.value, env)
         return self.call(f, argv, kw, e, env)
+
+    def list_mutation(self, e, env):
+        """x.append(v) & co. on a Python list: functional update of the location holding it
+        (local name, attribute of an executor object, or field of a node — the latter is a heap
+        write and produces a frame obligation)."""
+        S = self.S
+        base = e.func.value
+        cur = self.ev(base, env)
+        if not (isinstance(cur, Z) and cur.t.sort() == S.PyList) and not isinstance(cur, CList):
+            if isinstance(cur, Z) and cur.t.sort() == S.Py:
+                return NotImplemented
+            return NotImplemented
+        op = e.func.attr
+        args = [self.ev(a, env) for a in e.args]
+        line = e.lineno
+        if isinstance(cur, CList):
+            if op == "append":
+                new = CList(cur.items + [args[0]])
+                self.store_to(base, new, env, line)
+                return Z(self.P.PNone)
+            return NotImplemented
+        l = cur.t
+        ret = Z(self.P.PNone)
+        if op == "append":
+            new = S.concat(l, S.cons(self.to_py(args[0]), S.nil))
+        elif op == "extend":
+            new = S.concat(l, self.to_list(args[0], line))
+        elif op == "remove":
+            x = self.to_py(args[0])
+            self.oblige("safety", "ValueError:list.remove(x)-x-not-in-list", S.contains(l, x), line)
+            new = S.remove_first(l, x)
+        elif op == "pop" and not args:
+            self.oblige("safety", "IndexError:pop-from-empty-list", S.is_cons(l), line)
+            n = S.len_l(l)
+            new = S.take(l, n - 1)
+            ret = Z(S.nth(l, n - 1))
+        elif op == "clear":
+            new = S.nil
+        else:
+            return NotImplemented
+        if cur.fresh == "no":
+            self.frame_write(cur, f"list.{op} on a list that was not allocated here", line)
+        self.store_to(base, Z(new, fresh=cur.fresh, origin=cur.origin), env, line)
+        return ret
+
+    def store_to(self, target_expr, value, env, line):
+        if isinstance(target_expr, ast.Name):
+            old = env.get(target_expr.id)
+            env[target_expr.id] = value
+            # aliases of the same list term see the mutation too
+            if isinstance(old, Z) and isinstance(value, Z):
+                for k, v in list(env.items()):
+                    if k != target_expr.id and isinstance(v, Z) and v.t.sort() == old.t.sort() \
+                            and v.t.eq(old.t):
+                        env[k] = value
+            return
+        if isinstance(target_expr, ast.Attribute):
+            b = self.ev(target_expr.value, env)
+            if isinstance(b, Obj):
+                b.attrs[target_expr.attr] = value
+                return
+            if isinstance(b, Z) and b.t.sort() == self.S.Py:
+                newt = self.update_field(b, target_expr.attr, value, line)
+                self.rebind_aliases(b, newt, env)
+                return
+        raise Unsupported(f"in-place list update through {ast.dump(target_expr)[:60]}")
 
     def ev_Lambda(self, e, env):
         return Opaque("lambda")
@@ -1052,6 +1174,13 @@ class Exec:
                 h = self.w.class_ctor.get(f.name)
                 if h:
                     return h(self, args, kw, e, env)
+                cc = self.w.classes.get(f.name)
+                if cc is not None and not args and not kw:
+                    from .contracts import eval_spec_expr
+                    o = Obj(f.name, {}, fresh="shallow")
+                    for a_, text in cc.get("init_state", {}).items():
+                        o.attrs[a_] = eval_spec_expr(self, text, {})
+                    return o
                 raise Unsupported(f"instantiating {f.name}")
             if f.kind == "classattr":
                 cls, meth = f.name
@@ -1268,6 +1397,8 @@ class Exec:
         if isinstance(base, Z) and base.t.sort() == self.S.Py:
             # in-place store on a node: functional update of every local alias of that term
             self.frame_write(base, f"store to .{attr}", line)
+            if isinstance(attr, str) and attr not in self.S.owners and not attr.startswith("_"):
+                raise Unsupported(f"store to unknown attribute {attr}")
             newt = self.update_field(base, attr, v, line)
             self.rebind_aliases(base, newt, env)
             return
@@ -1286,27 +1417,46 @@ class Exec:
                 raise Unsupported(f"store to .{attr} on node of unknown class")
             cls = ent[0]
         vals = []
+        ff = set(base.fresh_fields)
         for fname, fty, q in S.fields[cls]:
             if fname == attr:
                 vals.append(self.to_list(v, line) if q == "*" else self.to_py(v))
+                if q == "*" and isinstance(v, Z) and v.fresh in ("shallow", "deep", "node"):
+                    ff.add(fname)
+                elif q == "*" and isinstance(v, CList):
+                    ff.add(fname)
+                elif q == "*":
+                    ff.discard(fname)
             else:
                 vals.append(S.acc(cls, fname)(base.t))
-        return Z(S.mk(cls, vals), fresh=base.fresh, origin=base.origin, known_cls=cls)
+        fr = base.fresh
+        if fr == "node" and all(f in ff for f, _, q in S.fields[cls] if q == "*"):
+            fr = "shallow"
+        return Z(S.mk(cls, vals), fresh=fr, origin=base.origin, known_cls=cls,
+                 fresh_fields=tuple(sorted(ff)))
 
     def rebind_aliases(self, old, new, env):
         for k, val in list(env.items()):
-            if isinstance(val, Z) and val.t.sort() == old.t.sort() and val.t.eq(old.t):
-                env[k] = Z(new.t, fresh=val.fresh, origin=val.origin, known_cls=new.known_cls)
+            if isinstance(val, Z) and val.t.sort() == old.t.sort() and val.t.eq(old.t) \
+                    and val.fresh == old.fresh:
+                env[k] = Z(new.t, fresh=new.fresh, origin=val.origin, known_cls=new.known_cls,
+                           fresh_fields=new.fresh_fields)
 
-    def frame_write(self, v, what, line):
+    def frame_write(self, v, what, line, need_lists=False):
         """Frame obligation: a write is allowed only on an object allocated during this call
-        (or listed in the contract's `modifies`)."""
+        (or listed in the contract's `modifies`).  need_lists: the write also rewrites the
+        object's child lists in place (NodeTransformer.generic_visit)."""
         if self.spec_mode:
             return
         mods = self.contract.get("modifies", [])
         if "*" in mods:
             return
-        ok = v.fresh in ("shallow", "deep")
+        ok = v.fresh in ("shallow", "deep") or (v.fresh == "node" and not need_lists)
+        if not ok and v.fresh == "node" and need_lists:
+            cls = self.known_class(v)
+            if cls in self.S.classes and all(f in v.fresh_fields
+                                             for f, _, q in self.S.fields[cls] if q == "*"):
+                ok = True
         self.oblige_trivial("frame", f"write:{what}", ok, line,
                             note=f"{what} on {'fresh' if ok else 'NON-FRESH'} object "
                                  f"({v.origin or 'unknown origin'})")
